@@ -271,6 +271,15 @@ def run_config(fn, params, cfg_key, seed=0, tier="quick", options=None, max_path
     if ferr is not None and not any(v["obligation"] == "harness:unexpected-exception" for v in res["violations"]):
         if res["paths"] and not res["engine_errors"]:
             res["engine_errors"].append(f"float run raised {ferr} but no symbolic path did")
+    # an obligation that stays open on a path nobody witnessed, and that the concrete run of the harness on the real code
+    # violates (judged at the loose tolerance): the concrete run is the counterexample, whichever path it belongs to
+    open_unw = {o["obligation"] for o in res["open"] if not o.get("witnessed")} - {v["obligation"] for v in res["violations"]}
+    if open_unw and any(o.status in ("violated", "failed-concrete") and o.name in open_unw for o in FB.obligations):
+        FBl, _ = run_float(fn, params, cfg_key, seed, rtol=max(1e-5, opts.get("float_rtol", 1e-8)), tier=tier)
+        for o in FBl.obligations:
+            if o.name in open_unw and o.status in ("violated", "failed-concrete"):
+                res["violations"].append({"obligation": o.name, "status": o.status, "detail": f"open on an unwitnessed symbolic path; violated by the concrete run on the real code: {o.detail}", "path": [], "witnessed": True, "confirmed": True, "float_detail": o.detail, "concrete_only": True})
+                res["open"] = [e for e in res["open"] if e["obligation"] != o.name or e.get("witnessed")]
     # float obligations that fail although every symbolic path proved them: engine unsound or rounding
     names_sym_bad = {v["obligation"] for v in res["violations"]} | {o["obligation"] for o in res["open"]}
     for o in FB.obligations:
